@@ -586,9 +586,12 @@ func watchdog() {
 		time.Sleep(250 * time.Millisecond)
 		if data, err := os.ReadFile("/proc/self/statm"); err == nil {
 			f := strings.Fields(string(data))
-			if len(f) > 1 {
-				if pages, _ := strconv.ParseInt(f[1], 10, 64); pages*4096 > 8<<30 {
-					workerAbort(fmt.Sprintf("memory: resident set %d MiB exceeds 8 GiB (runaway allocation)", pages*4096>>20))
+			if len(f) > 2 {
+				// anonymous memory only: pages of mapped (tmpfs) data files are resident too, and are not an allocation
+				res, _ := strconv.ParseInt(f[1], 10, 64)
+				shared, _ := strconv.ParseInt(f[2], 10, 64)
+				if pages := res - shared; pages*4096 > 8<<30 {
+					workerAbort(fmt.Sprintf("memory: anonymous resident set %d MiB exceeds 8 GiB (runaway allocation)", pages*4096>>20))
 				}
 			}
 		}
